@@ -28,4 +28,10 @@ EXCEPTIONS = {
     "C15": {
         "C15.linear|hydro_deploy_integration|<MergeSource<T, S> as Stream>::poll_next|dropped:outx1": "statically reachable, dynamically infeasible: `out` is dropped only on the `sources.is_empty()` return, and a source that has just yielded an item is still in `sources` (only sources that reported Ready(None) are removed)",
     },
+    "C01": {
+        "C01.used|lattices|<WithTop<Inner> as Merge<WithTop<Other>>>|unused-bound:Inner: LatticeFrom": "superfluous bound, not a skipped conversion: in WithTop `None` is top, so no arm ever has to build an `Inner` from an `Other` ((None,Some)=>stay top, (Some,None)=>become top, (Some,Some)=>nested merge); confirmed by reading with_top.rs",
+    },
+    "C02": {
+        "C02.flagflow|lattices|<DomPair<KeySelf, ValSelf> as Merge<DomPair<KeyOther, ValOther>>>|<DomPair<KeySelf, ValSelf> as Merge<DomPair<KeyOther, ValOther>>>::merge|discarded-flag:Merge::merge": "intentional: in the keys-incomparable arm the key merge is asserted to have changed the key, so the pair changed whatever the value merge reports; the arm returns `true`",
+    },
 }
